@@ -91,6 +91,11 @@ func oracleKeyChange(r *Rng, keys []keyPair) {
 			if err != nil {
 				panic(err)
 			}
+			for k.KeyTag() == 0 { // recorded finding C17/Sign/key-tag-zero: take another key
+				if p, err = k.Generate(f.bits); err != nil {
+					panic(err)
+				}
+			}
 			return p.(crypto.Signer)
 		}
 		privA := gen(kobj)
